@@ -261,8 +261,8 @@ func c36Spaces(thorough bool) []*c36Space {
 	})
 	// ---- person
 	peers := []string{"u2", "rsys"}
-	// quick: id forms {peer uid, reversed/normalize, reversed/as-is}; thorough: all 5
-	forms := []int{0, 2, 4}
+	// quick: id forms {peer uid/normalize, reversed/as-is}; thorough: all 5
+	forms := []int{0, 4}
 	if thorough {
 		forms = []int{0, 1, 2, 3, 4}
 	}
@@ -392,15 +392,16 @@ func c36MixedSpaces(thorough bool) []*c36Space {
 	var out []*c36Space
 	// list facts {false,true} in quick, {false,true,store error} in thorough for the two large families
 	// quick also drops the store-error entry of the per-item rows (sr, gr, tr) in the large families
-	t, sr, gr, tr := 2, 3, 5, 3
+	// and keeps the second command's allowlist facts (t2) at "no allowlist"
+	t, t2, sr, gr, tr := 2, 1, 3, 5, 3
 	if thorough {
-		t, sr, gr, tr = 3, 4, 6, 4
+		t, t2, sr, gr, tr = 3, 3, 4, 6, 4
 	}
 	// (a) one sender, two groups: the sender row is read once for both items
 	out = append(out, &c36Space{
 		name:  "mixed/one-sender-two-groups",
 		names: []string{"sender_row", "g1.channel_row", "g1.denylisted", "g1.subscriber", "g1.allowlist_nonempty", "g1.allowlisted", "g2.channel_row", "g2.denylisted", "g2.subscriber", "g2.allowlist_nonempty", "g2.allowlisted"},
-		dims:  []int{4, gr, t, t, t, t, gr, t, t, t, t},
+		dims:  []int{4, gr, t, t, t, t, gr, t, t, t2, t2},
 		eval: c36MixedEval("one-sender-two-groups", func(ix []int) (c36Cfg, []c36Case) {
 			cfg := c36Cfg{}
 			a := c36GroupCase(c36GroupFacts{Cfg: cfg, Sender: "u1", SenderRow: ix[0], GroupRow: ix[1], Denied: ix[2], Sub: ix[3], HasAllow: ix[4], Entry: ix[5], Group: "g1"})
